@@ -1,0 +1,398 @@
+//go:build verif
+
+package main
+
+import (
+	"bytes"
+	"encoding/json"
+	"fmt"
+	"io"
+	"log"
+	"os"
+
+	"gopkg.in/yaml.v3"
+
+	"github.com/ludo-technologies/pyscn/app"
+	"github.com/ludo-technologies/pyscn/domain"
+	"github.com/ludo-technologies/pyscn/internal/analyzer"
+	"github.com/ludo-technologies/pyscn/service"
+)
+
+// Ops for property C16 (report consistency and format agreement).
+//
+//	summaries    synthetic item lists + request -> real filter / sort / generateSummary of one section
+//	report_keys  values -> risk level and distribution key of the real helper functions
+//	unified      an AnalyzeResponse (sections) -> calculateSummary -> AnalyzeSummary
+//	formats      an AnalyzeResponse -> every AnalyzeFormatter format (and the per-section formatters)
+//	yaml2json    a YAML file -> generic JSON (yaml.v3 decoder)
+
+type itemVR struct {
+	V    int    `json:"v"`
+	Risk string `json:"risk"` // "" = computed by the real risk function from the request thresholds
+	Name string `json:"name"`
+}
+
+func boolPtr(b *bool) *bool { return b }
+
+func jsonable(v interface{}) interface{} {
+	switch x := v.(type) {
+	case map[string]interface{}:
+		for k, e := range x {
+			x[k] = jsonable(e)
+		}
+		return x
+	case map[interface{}]interface{}:
+		m := map[string]interface{}{}
+		for k, e := range x {
+			m[fmt.Sprint(k)] = jsonable(e)
+		}
+		return m
+	case []interface{}:
+		for i, e := range x {
+			x[i] = jsonable(e)
+		}
+		return x
+	}
+	return v
+}
+
+func yamlToGeneric(data []byte) (interface{}, error) {
+	var v interface{}
+	if err := yaml.Unmarshal(data, &v); err != nil {
+		return nil, err
+	}
+	return jsonable(v), nil
+}
+
+func init() {
+	register("report_keys", func(raw json.RawMessage) (interface{}, error) {
+		var req struct {
+			Section string
+			Values  []int
+			Low     int
+			Medium  int
+		}
+		if err := json.Unmarshal(raw, &req); err != nil {
+			return nil, err
+		}
+		risks := make([]string, len(req.Values))
+		keys := make([]string, len(req.Values))
+		for i, v := range req.Values {
+			switch req.Section {
+			case "complexity":
+				risks[i] = string(service.VerifReportComplexityRisk(v, domain.ComplexityRequest{LowThreshold: req.Low, MediumThreshold: req.Medium}))
+				keys[i] = service.VerifReportComplexityKey(v)
+			case "cbo":
+				risks[i] = analyzer.VerifReportCBORisk(v, req.Low, req.Medium)
+				keys[i] = service.VerifReportCBOKey(v)
+			case "lcom":
+				risks[i] = analyzer.VerifReportLCOMRisk(v, req.Low, req.Medium)
+				keys[i] = service.VerifReportLCOMKey(v)
+			default:
+				return nil, fmt.Errorf("unknown section %q", req.Section)
+			}
+		}
+		return map[string]interface{}{"risks": risks, "keys": keys}, nil
+	})
+
+	register("summaries", func(raw json.RawMessage) (interface{}, error) {
+		var req struct {
+			Section string
+			Files   int
+			Items   []itemVR
+			Min     int
+			Max     int
+			Low     int
+			Medium  int
+			Sort    string
+			Zeros   *bool
+			// dead code
+			MinSeverity string
+			DeadFiles   []struct {
+				Path      string
+				TotalFns  int
+				Affected  *int
+				Findings  *int
+				Functions []struct {
+					Name     string
+					Findings [][2]string // severity, reason
+					Total    int
+					Dead     int
+					Counts   *[3]int // nil = CalculateSeverityCounts
+				}
+			}
+			// clones
+			NClones int
+			Pairs   []struct {
+				Sim  float64
+				Type int
+			}
+			Groups []struct {
+				Sim  float64
+				Type int
+				Size int
+			}
+			MinSim float64
+			MaxSim float64
+			Types  []int
+			Lines  int
+			Nodes  int
+		}
+		if err := json.Unmarshal(raw, &req); err != nil {
+			return nil, err
+		}
+		switch req.Section {
+		case "complexity":
+			creq := domain.ComplexityRequest{MinComplexity: req.Min, MaxComplexity: req.Max, LowThreshold: req.Low,
+				MediumThreshold: req.Medium, SortBy: domain.SortCriteria(req.Sort)}
+			fs := make([]domain.FunctionComplexity, len(req.Items))
+			for i, it := range req.Items {
+				r := domain.RiskLevel(it.Risk)
+				if it.Risk == "" {
+					r = service.VerifReportComplexityRisk(it.V, creq)
+				}
+				fs[i] = domain.FunctionComplexity{Name: it.Name, FilePath: "f.py", Metrics: domain.ComplexityMetrics{Complexity: it.V}, RiskLevel: r}
+			}
+			kept, sum := service.VerifReportComplexity(fs, req.Files, creq)
+			out := make([]itemVR, len(kept))
+			for i, f := range kept {
+				out[i] = itemVR{V: f.Metrics.Complexity, Risk: string(f.RiskLevel), Name: f.Name}
+			}
+			return map[string]interface{}{"kept": out, "summary": sum}, nil
+		case "cbo":
+			creq := domain.CBORequest{MinCBO: req.Min, MaxCBO: req.Max, LowThreshold: req.Low, MediumThreshold: req.Medium,
+				SortBy: domain.SortCriteria(req.Sort), ShowZeros: boolPtr(req.Zeros)}
+			cs := make([]domain.ClassCoupling, len(req.Items))
+			for i, it := range req.Items {
+				r := it.Risk
+				if r == "" {
+					r = analyzer.VerifReportCBORisk(it.V, req.Low, req.Medium)
+				}
+				cs[i] = domain.ClassCoupling{Name: it.Name, FilePath: "f.py", Metrics: domain.CBOMetrics{CouplingCount: it.V}, RiskLevel: domain.RiskLevel(r)}
+			}
+			kept, sum := service.VerifReportCBO(cs, req.Files, creq)
+			out := make([]itemVR, len(kept))
+			for i, f := range kept {
+				out[i] = itemVR{V: f.Metrics.CouplingCount, Risk: string(f.RiskLevel), Name: f.Name}
+			}
+			top := make([]itemVR, len(sum.MostCoupledClasses))
+			for i, f := range sum.MostCoupledClasses {
+				top[i] = itemVR{V: f.Metrics.CouplingCount, Risk: string(f.RiskLevel), Name: f.Name}
+			}
+			sum.MostCoupledClasses = nil
+			return map[string]interface{}{"kept": out, "summary": sum, "top": top}, nil
+		case "lcom":
+			creq := domain.LCOMRequest{MinLCOM: req.Min, MaxLCOM: req.Max, LowThreshold: req.Low, MediumThreshold: req.Medium,
+				SortBy: domain.SortCriteria(req.Sort)}
+			cs := make([]domain.ClassCohesion, len(req.Items))
+			for i, it := range req.Items {
+				r := it.Risk
+				if r == "" {
+					r = analyzer.VerifReportLCOMRisk(it.V, req.Low, req.Medium)
+				}
+				cs[i] = domain.ClassCohesion{Name: it.Name, FilePath: "f.py", Metrics: domain.LCOMMetrics{LCOM4: it.V}, RiskLevel: domain.RiskLevel(r)}
+			}
+			kept, sum := service.VerifReportLCOM(cs, req.Files, creq)
+			out := make([]itemVR, len(kept))
+			for i, f := range kept {
+				out[i] = itemVR{V: f.Metrics.LCOM4, Risk: string(f.RiskLevel), Name: f.Name}
+			}
+			top := make([]itemVR, len(sum.LeastCohesiveClasses))
+			for i, f := range sum.LeastCohesiveClasses {
+				top[i] = itemVR{V: f.Metrics.LCOM4, Risk: string(f.RiskLevel), Name: f.Name}
+			}
+			sum.LeastCohesiveClasses = nil
+			return map[string]interface{}{"kept": out, "summary": sum, "top": top}, nil
+		case "deadcode":
+			dreq := domain.DeadCodeRequest{MinSeverity: domain.DeadCodeSeverity(req.MinSeverity), SortBy: domain.DeadCodeSortCriteria(req.Sort)}
+			files := make([]domain.FileDeadCode, len(req.DeadFiles))
+			for i, f := range req.DeadFiles {
+				fd := domain.FileDeadCode{FilePath: f.Path, TotalFunctions: f.TotalFns}
+				total := 0
+				for _, fn := range f.Functions {
+					fdc := domain.FunctionDeadCode{Name: fn.Name, FilePath: f.Path, TotalBlocks: fn.Total, DeadBlocks: fn.Dead}
+					for _, x := range fn.Findings {
+						fdc.Findings = append(fdc.Findings, domain.DeadCodeFinding{Severity: domain.DeadCodeSeverity(x[0]), Reason: x[1], FunctionName: fn.Name})
+					}
+					if fn.Counts == nil {
+						fdc.CalculateSeverityCounts()
+					} else {
+						fdc.CriticalCount, fdc.WarningCount, fdc.InfoCount = fn.Counts[0], fn.Counts[1], fn.Counts[2]
+					}
+					total += len(fdc.Findings)
+					fd.Functions = append(fd.Functions, fdc)
+				}
+				fd.TotalFindings = total
+				fd.AffectedFunctions = len(fd.Functions)
+				if f.Affected != nil {
+					fd.AffectedFunctions = *f.Affected
+				}
+				if f.Findings != nil {
+					fd.TotalFindings = *f.Findings
+				}
+				files[i] = fd
+			}
+			kept, sum := service.VerifReportDeadCode(files, req.Files, dreq)
+			return map[string]interface{}{"kept": kept, "summary": sum}, nil
+		case "findings":
+			// filterFindingsBySeverity + HasFindingsAtSeverity + CalculateSeverityCounts on one function
+			var fdc domain.FunctionDeadCode
+			for _, f := range req.DeadFiles {
+				for _, fn := range f.Functions {
+					for _, x := range fn.Findings {
+						fdc.Findings = append(fdc.Findings, domain.DeadCodeFinding{Severity: domain.DeadCodeSeverity(x[0]), Reason: x[1]})
+					}
+				}
+			}
+			min := domain.DeadCodeSeverity(req.MinSeverity)
+			has := fdc.HasFindingsAtSeverity(min)
+			kept := service.VerifReportFilterFindings(fdc.Findings, min)
+			fdc.Findings = kept
+			fdc.CalculateSeverityCounts()
+			out := make([][2]string, len(kept))
+			for i, k := range kept {
+				out[i] = [2]string{string(k.Severity), k.Reason}
+			}
+			return map[string]interface{}{"kept": out, "has": has, "counts": []int{fdc.CriticalCount, fdc.WarningCount, fdc.InfoCount}}, nil
+		case "clones":
+			creq := &domain.CloneRequest{MinSimilarity: req.MinSim, MaxSimilarity: req.MaxSim}
+			for _, t := range req.Types {
+				creq.CloneTypes = append(creq.CloneTypes, domain.CloneType(t))
+			}
+			clones := make([]*domain.Clone, req.NClones)
+			for i := range clones {
+				clones[i] = &domain.Clone{ID: i + 1, Location: &domain.CloneLocation{}}
+			}
+			pairs := make([]*domain.ClonePair, len(req.Pairs))
+			for i, p := range req.Pairs {
+				pairs[i] = &domain.ClonePair{ID: i + 1, Similarity: p.Sim, Type: domain.CloneType(p.Type),
+					Clone1: &domain.Clone{Location: &domain.CloneLocation{}}, Clone2: &domain.Clone{Location: &domain.CloneLocation{}}}
+			}
+			groups := make([]*domain.CloneGroup, len(req.Groups))
+			for i, g := range req.Groups {
+				groups[i] = &domain.CloneGroup{ID: i + 1, Similarity: g.Sim, Type: domain.CloneType(g.Type), Size: g.Size}
+			}
+			kp, kg, st := service.VerifReportClones(clones, pairs, groups, creq, req.NClones, req.Files, req.Lines, req.Nodes)
+			op := make([][2]float64, len(kp))
+			for i, p := range kp {
+				op[i] = [2]float64{p.Similarity, float64(p.Type)}
+			}
+			og := make([][2]float64, len(kg))
+			for i, g := range kg {
+				og[i] = [2]float64{g.Similarity, float64(g.Type)}
+			}
+			return map[string]interface{}{"pairs": op, "groups": og, "stats": st}, nil
+		}
+		return nil, fmt.Errorf("unknown section %q", req.Section)
+	})
+
+	register("unified", func(raw json.RawMessage) (interface{}, error) {
+		var req struct {
+			Response domain.AnalyzeResponse
+		}
+		if err := json.Unmarshal(raw, &req); err != nil {
+			return nil, err
+		}
+		log.SetOutput(io.Discard)
+		app.VerifCalculateSummary(&req.Response)
+		return req.Response.Summary, nil
+	})
+
+	register("formats", func(raw json.RawMessage) (interface{}, error) {
+		var req struct {
+			Response domain.AnalyzeResponse
+			Sections bool // also run the per-section formatters
+		}
+		if err := json.Unmarshal(raw, &req); err != nil {
+			return nil, err
+		}
+		resp := &req.Response
+		f := service.NewAnalyzeFormatter()
+		out := map[string]interface{}{}
+		errs := map[string]string{}
+		render := func(name string, w func(io.Writer) error) string {
+			var buf bytes.Buffer
+			var err error
+			func() {
+				defer func() {
+					if r := recover(); r != nil {
+						err = fmt.Errorf("panic: %v", r)
+					}
+				}()
+				err = w(&buf)
+			}()
+			if err != nil {
+				errs[name] = err.Error()
+			}
+			return buf.String()
+		}
+		for _, fm := range []domain.OutputFormat{domain.OutputFormatText, domain.OutputFormatJSON, domain.OutputFormatYAML,
+			domain.OutputFormatCSV, domain.OutputFormatHTML} {
+			fm := fm
+			out[string(fm)] = render(string(fm), func(w io.Writer) error { return f.Write(resp, fm, w) })
+		}
+		if y, ok := out["yaml"].(string); ok {
+			if g, err := yamlToGeneric([]byte(y)); err != nil {
+				errs["yaml-decode"] = err.Error()
+			} else {
+				out["yaml_as_json"] = g
+			}
+		}
+		if req.Sections {
+			sec := map[string]int{}
+			for _, fm := range []domain.OutputFormat{domain.OutputFormatText, domain.OutputFormatJSON, domain.OutputFormatYAML,
+				domain.OutputFormatCSV, domain.OutputFormatHTML} {
+				fm := fm
+				if resp.Complexity != nil {
+					sec["complexity/"+string(fm)] = len(render("complexity/"+string(fm), func(w io.Writer) error {
+						return service.NewOutputFormatter().Write(resp.Complexity, fm, w)
+					}))
+				}
+				if resp.DeadCode != nil {
+					sec["deadcode/"+string(fm)] = len(render("deadcode/"+string(fm), func(w io.Writer) error {
+						return service.NewDeadCodeFormatter().Write(resp.DeadCode, fm, w)
+					}))
+				}
+				if resp.Clone != nil {
+					sec["clone/"+string(fm)] = len(render("clone/"+string(fm), func(w io.Writer) error {
+						return service.NewCloneOutputFormatter().FormatCloneResponse(resp.Clone, fm, w)
+					}))
+				}
+				if resp.CBO != nil {
+					sec["cbo/"+string(fm)] = len(render("cbo/"+string(fm), func(w io.Writer) error {
+						return service.NewCBOFormatter().Write(resp.CBO, fm, w)
+					}))
+				}
+				if resp.LCOM != nil {
+					sec["lcom/"+string(fm)] = len(render("lcom/"+string(fm), func(w io.Writer) error {
+						return service.NewLCOMFormatter().Write(resp.LCOM, fm, w)
+					}))
+				}
+				if resp.System != nil {
+					sec["system/"+string(fm)] = len(render("system/"+string(fm), func(w io.Writer) error {
+						return service.NewSystemAnalysisFormatter().Write(resp.System, fm, w)
+					}))
+				}
+			}
+			out["section_sizes"] = sec
+		}
+		out["errors"] = errs
+		return out, nil
+	})
+
+	register("yaml2json", func(raw json.RawMessage) (interface{}, error) {
+		var req struct{ Path string }
+		if err := json.Unmarshal(raw, &req); err != nil {
+			return nil, err
+		}
+		data, err := os.ReadFile(req.Path)
+		if err != nil {
+			return nil, err
+		}
+		g, err := yamlToGeneric(data)
+		if err != nil {
+			return nil, err
+		}
+		return map[string]interface{}{"data": g}, nil
+	})
+}
